@@ -215,6 +215,8 @@ class Opaque:
 def fresh_of_type(ty, hint, taint=False):
     ty = ty.strip()
     n = next(_fresh)
+    if taint:
+        hint = "HV_" + hint   # result of an unmodelled call / construct: see Decider (a sat answer that involves one is not a verdict)
     if ty in INT_TYPES:
         return BV(z3.BitVec(f"{hint}!{n}", INT_TYPES[ty]), INT_TYPES[ty], ty[0] == "i", taint)
     if ty == "bool":
@@ -250,6 +252,7 @@ class Explorer:
     def __init__(self, funcs, consts, inline=(), max_visits=1, max_paths=4000, stop_calls=(), log=None, pure_accessors=()):
         self.funcs, self.consts = funcs, consts
         self.pure_accessors = set(pure_accessors)
+        self.inline_nested = True
         self.inline = set(inline)
         self.max_visits, self.max_paths = max_visits, max_paths
         self.stop_calls = tuple(stop_calls)
@@ -484,7 +487,7 @@ class Explorer:
         if isinstance(v, BoolV):
             return BV(z3.If(v.e, z3.BitVecVal(1, 8), z3.BitVecVal(0, 8)), 8, False, v.taint)
         w = width or 64
-        return BV(z3.BitVec(f"hv!{next(_fresh)}", w), w, False, True)
+        return BV(z3.BitVec(f"HV_hv!{next(_fresh)}", w), w, False, True)
 
     def binop(self, op, a, b):
         if op in ("Eq", "Ne") and isinstance(a, BoolV) and isinstance(b, BoolV):
@@ -848,7 +851,7 @@ class Explorer:
                     self._finish(st, "stop:" + cname)
                     return
                 # models
-                if short in ("min", "max") and ("cmp::" in cname):
+                if short in ("min", "max") and ("cmp::" in cname or re.search(r"<[ui](8|16|32|64|128|size) as Ord>::", cname)) and len(args) == 2:
                     a, b = self.coerce_bv(args[0]), self.coerce_bv(args[1])
                     lt = z3.ULT(a.e, b.e) if not a.signed else a.e < b.e
                     e = z3.If(lt, a.e, b.e) if short == "min" else z3.If(lt, b.e, a.e)
@@ -878,6 +881,11 @@ class Explorer:
                         rv = fresh_of_type(dty or "u64", "from", True)
                 else:
                     target = self.resolve(cname) if (cname in self.inline or short in self.inline) else None
+                    if target is None and self.inline_nested:
+                        t2 = self.resolve(cname)
+                        root = frames[0].func.name.split("::{closure")[0]
+                        if t2 is not None and t2.name.startswith(root + "::") and "{closure" not in t2.name[len(root):]:
+                            target = t2   # a helper fn nested in the function under exploration
                     if target is not None and len(frames) < 12:
                         loc = {}
                         for (l, ty), v in zip(target.args, args):
@@ -998,13 +1006,27 @@ def cvc5_check(conds, timeout=60):
     return first
 
 
+def _vars(e):
+    out, seen, stack = [], set(), [e]
+    while stack:
+        x = stack.pop()
+        if x.get_id() in seen:
+            continue
+        seen.add(x.get_id())
+        if z3.is_const(x) and x.decl().kind() == z3.Z3_OP_UNINTERPRETED:
+            out.append(x)
+        stack.extend(x.children())
+    return out
+
+
 class Decider:
     def __init__(self):
+        self.fail_closed = True
         self.queries = 0
         self.solver_s = 0.0
         self.log = []
 
-    def check(self, conds, label, z3_ms=15000, cvc5_s=300):
+    def check(self, conds, label, z3_ms=15000, cvc5_s=300, hv_scope=None):
         """-> ('sat', model) | ('unsat', None) | ('unknown', why).
         Both solvers are asked.  If both decide they must agree; if only one decides within its
         time limit its verdict stands (recorded in the log); a sat verdict needs a z3 model or is
@@ -1029,8 +1051,16 @@ class Decider:
         if z in ("sat", "unsat") and c in ("sat", "unsat"):
             if z != c:
                 return "unknown", f"solvers disagree: z3={z} cvc5={c}"
+            if z == "sat" and hv_scope:
+                hv = sorted({str(v) for cnd in hv_scope for v in _vars(cnd) if str(v).startswith("HV_")})
+                if hv:
+                    return "unknown", "the counterexample's operands are results of unmodelled calls (havoc): " + ", ".join(hv[:3])
             return z, model
         if z in ("sat", "unsat"):
+            if z == "sat" and hv_scope:
+                hv = sorted({str(v) for cnd in hv_scope for v in _vars(cnd) if str(v).startswith("HV_")})
+                if hv:
+                    return "unknown", "the counterexample's operands are results of unmodelled calls (havoc): " + ", ".join(hv[:3])
             return z, model
         if c == "unsat":
             return "unsat", None
